@@ -12,5 +12,6 @@ for name, d in F.crates.items():
     if pkg not in ("rscel", "rscel-to-sql"):
         continue
     out[pkg] = {b["path"]: {"sig": list(lib._fn_sig(b))} for b in d["bodies"] if b.get("kind") in ("fn", "assoc_fn") and "{closure" not in b["path"]}
+    out[pkg]["#registries"] = {r["path"]: {row["name"]: row.get("target_path") for row in r["rows"]} for r in d.get("registries", [])}
 json.dump(out, open(lib.ANCHORS, "w"), indent=0, sort_keys=True)
-print({k: len(v) for k, v in out.items()})
+print({k: len(v) - 1 for k, v in out.items()})
